@@ -138,7 +138,11 @@ def _memo_value_depends(f, attr):
                         carry.add(x.id)
                         changed = True
     for n in _ast.walk(f.node):
-        if isinstance(n, _ast.Assign) and any(dotted(t) == attr for t in n.targets) or \
+        flat_ = []
+        if isinstance(n, _ast.Assign):
+            for t in n.targets:
+                flat_.extend(t.elts if isinstance(t, (_ast.Tuple, _ast.List)) else [t])
+        if isinstance(n, _ast.Assign) and any(dotted(t) == attr for t in flat_) or \
                 isinstance(n, _ast.AugAssign) and dotted(n.target) == attr:
             if tainted(n.value):
                 return True
@@ -150,7 +154,22 @@ def _memo_value_depends(f, attr):
                     b = b.value
                 if b is not t and dotted(b) == attr:
                     return True     # item store into the memo: keyed cache
+                if b is not t and isinstance(b, _ast.Name) and b.id in _dict_aliases(f, attr):
+                    return True     # ... through a local name for a container kept in the object's __dict__
     return False
+
+
+def _dict_aliases(f, attr):
+    """locals bound by `x = self.__dict__.setdefault('<name>', ...)` / `vars(self).setdefault(...)` for attr self.<name>"""
+    import ast as _ast
+    out = set()
+    leaf = attr.split('.')[-1]
+    for n in _ast.walk(f.node):
+        if isinstance(n, _ast.Assign) and len(n.targets) == 1 and isinstance(n.targets[0], _ast.Name) and \
+                isinstance(n.value, _ast.Call) and isinstance(n.value.func, _ast.Attribute) and n.value.func.attr == 'setdefault' \
+                and n.value.args and isinstance(n.value.args[0], _ast.Constant) and n.value.args[0].value == leaf:
+            out.add(n.targets[0].id)
+    return out
 
 
 def _size_only_key(f, attr):
